@@ -12,6 +12,8 @@ import OptreeModel.Model.Alias
 import OptreeModel.Model.Fault
 import OptreeModel.Model.Memory
 import OptreeModel.Generated.Access
+import OptreeModel.Model.Threads
+import OptreeModel.Generated.Locks
 import OptreeModel.Generated.Fresh
 import OptreeModel.Generated.Twins
 import OptreeModel.Generated.Hash
@@ -251,6 +253,17 @@ def encLeaves (ls : List PyObj) : Sexp := l (.atom "leaves" :: ls.map encObj)
 def encPath (p : List Key) : Sexp := l (p.map encKey)
 def encPaths (ps : List (List Key)) : Sexp := l (.atom "paths" :: ps.map encPath)
 
+/-- C17: run two threads; whenever a switch is possible thread 1 (operation B) is preferred until it is
+done, then thread 0 finishes.  `false` = a stuck state was reached. -/
+def pairCompletes : Nat → TState → Bool
+  | 0, _ => true
+  | fuel + 1, s =>
+      if (s.progs 0).isEmpty && (s.progs 1).isEmpty then true
+      else
+        match tstep s (if (s.progs 1).isEmpty then 0 else 1) with
+        | .stuck => false
+        | .next s' => pairCompletes fuel s'
+
 def evalOp (st : DriverState) : Sexp → Res Sexp
   | .list [.atom "flatten", cfg, tree] => do
       let cfg ← Res.ofDec (decCfg st cfg)
@@ -439,6 +452,22 @@ def evalOp (st : DriverState) : Sexp → Res Sexp
         | .done => .atom "done"
         | .raised e => l [.atom "raised", .atom (errName e)]
         | .fault => .atom "fault"])
+  | .list [.atom "c17pair", .str _opA, .str _opB, .list fnsA, .list fnsB] => do
+      -- operation A (the engine functions it goes through, in order) is parked at its first switch
+      -- point while operation B runs; afterwards A finishes.  Lock programs from T-locks: the scopes
+      -- of each function in source order, user code in between.
+      let names : List Sexp → Res (List String) := fun xs =>
+        Res.ofDec (xs.mapM fun x => match x with | .str s => .ok s | _ => .error "function name expected")
+      let a ← names fnsA
+      let b ← names fnsB
+      let progOf : List String → ThreadProg := fun fs =>
+        fs.flatMap fun f =>
+          (Generated.lockProgs.filter (·.1 == f)).flatMap (fun p => p.2 ++ [Act.cb])
+      let s0 : TState := ⟨2, fun t => if t == 0 then progOf a else if t == 1 then progOf b else [],
+                          fun _ => [], 0⟩
+      -- schedule: every switch point of A hands over to B, every switch point of B keeps B running
+      -- until it is done, then back to A
+      pure (encOk [.atom (if pairCompletes 400 s0 then "completes" else "deadlock")])
   | .list (.atom "aliashist" :: _subject :: ops) => do
       let decOp : Sexp → Dec AOp := fun x => match x with
         | .list [.atom "insp", m] => do pure (.inspect (← decNat m))
